@@ -12,6 +12,7 @@ CONSTANTS
   Valences = {"neg"}
   Scores = {"none"}
   Unscoreds = {FALSE}
+  Msgs = {"text", "empty"}
   SuppU <- SuppScore
   MaxFb = 3
   MaxSupp = 1
